@@ -1,5 +1,224 @@
 import GT.Base.JsonQ
-open Lean GT.J
+import GT.Base.QSqrt
+import GT.Model.GramSchmidt
+import GT.Model.Diag
+import GT.Model.Arcs
+import GT.Model.LinAlgQ
+open Lean GT.J GT Matrix GT.Iso GT.GS GT.Diag GT.Arcs GT.LinAlgQ
 namespace GT.Driver.C18
-def ops : List (String × Handler) := []
+
+/-- rows of a `k × n` rational array as materialised vectors (n read off the form) -/
+def rowsD (n : ℕ) (j : Json) (k : String) : R (List (DVec n ℚ)) := do
+  let a ← qArr2 (← field j k)
+  if a.any (fun r => r.size ≠ n) then throw s!"expected rows of length {n}"
+  return a.toList.map fun r => (⟨r⟩ : DVec n ℚ)
+
+def formOf (j : Json) (k : String) : R ((n : ℕ) × Matrix (Fin n) (Fin n) ℚ) := do
+  let a ← qArr2 (← field j k)
+  let n := a.size
+  let M ← mat n n (.arr (a.map ofQArr))
+  return ⟨n, M⟩
+
+instance {n : ℕ} : Inhabited (DVec n ℚ) := ⟨⟨#[]⟩⟩
+
+def ofDVecs {n : ℕ} (l : List (DVec n ℚ)) : Json := .arr (l.toArray.map fun v => ofQArr v.a)
+
+/-- Gram–Schmidt with the guard the theorems assume: a null row that a later row is projected
+onto is a division by zero -/
+def gsGuard {n : ℕ} (F : Matrix (Fin n) (Fin n) ℚ) (rows : List (DVec n ℚ)) : R (List (DVec n ℚ)) := do
+  let out := gsD F rows
+  let norms := out.map fun v => bil F v.toFn v.toFn
+  if (norms.dropLast).any (· = 0) then throw "DivZero"
+  return out
+
+/-- `indefinite_orthogonalize` before `normalize`: unnormalised rows and their square-norms -/
+def gsOp (j : Json) : R Json := do
+  let ⟨n, F⟩ ← formOf j "form"
+  let rows ← rowsD n j "rows"
+  let out ← gsGuard F rows
+  return Json.mkObj [("rows", ofDVecs out), ("norms", ofQArr (out.map fun v => bil F v.toFn v.toFn).toArray)]
+
+/-- `indefinite_orthogonalize` with exact roots (only when every |square-norm| is a rational square) -/
+def orthoOp (j : Json) : R Json := do
+  let ⟨n, F⟩ ← formOf j "form"
+  let rows ← rowsD n j "rows"
+  let out ← gsGuard F rows
+  for v in out do
+    if !isSq |bil F v.toFn v.toFn| then throw "irrational-root"
+  return ofDVecs ((normalizeRows rsqrt F (out.map DVec.toFn)).map DVec.ofFn)
+
+/-- `find_isometry` given the kernel basis the implementation obtained: `gs partial ++ gs ker`
+unnormalised with square-norms -/
+def findIsoOp (j : Json) : R Json := do
+  let ⟨n, F⟩ ← formOf j "form"
+  let p ← rowsD n j "partial"
+  let k ← rowsD n j "ker"
+  let o1 ← gsGuard F p
+  let o2 ← gsGuard F k
+  let out := o1 ++ o2
+  return Json.mkObj [("rows", ofDVecs out), ("norms", ofQArr (out.map fun v => bil F v.toFn v.toFn).toArray)]
+
+/-- exact Gram data of rows `M` w.r.t. `F`: max |off-diagonal|, max ||diag|−1|, signs, and the
+cross products with an optional second family `P` -/
+def gramOp (j : Json) : R Json := do
+  let ⟨n, F⟩ ← formOf j "form"
+  let rows ← rowsD n j "rows"
+  let vs := rows.toArray
+  let mut off : ℚ := 0
+  let mut dg : ℚ := 0
+  let mut signs : Array ℚ := #[]
+  for a in [0:vs.size] do
+    for b in [0:vs.size] do
+      let g := bil F vs[a]!.toFn vs[b]!.toFn
+      if a = b then
+        dg := max dg |(|g| - 1)|
+        signs := signs.push (if 0 < g then 1 else -1)
+      else off := max off |g|
+  let others ← (do
+    match j.getObjVal? "against" with
+    | .ok _ => rowsD n j "against"
+    | .error _ => pure [])
+  let mut cross : ℚ := 0
+  for p in others do
+    for v in rows do
+      cross := max cross |bil F p.toFn v.toFn|
+  return Json.mkObj [("offdiag", ofQ off), ("diag", ofQ dg), ("signs", ofQArr signs), ("cross", ofQ cross)]
+
+/-- the `order` array of `diagonalize_form` for given eigenvalues -/
+def orderOp (j : Json) : R Json := do
+  let a ← qArr (← field j "eigs")
+  let n := a.size
+  let e ← vec n (.arr (a.map ofQ))
+  let mink := (← strf j "mode") == "minkowski"
+  let rev ← boolf j "reverse"
+  let key := if mink then minkowskiKey e else e
+  return Json.mkObj [("order", .arr ((formOrder e mink rev).toArray.map fun i => Json.num (i.val : Int))),
+    ("key", ofVec key)]
+
+/-- contract and conclusion residuals of `diagonalize_form`, exactly, on float data:
+`eigh` contract (`UᵀBU − diag eigs`, `UᵀU − 1`) and conclusion (`WᵀBW`: off-diagonal, ||diag|−1|, signs;
+`W Winv − 1`) -/
+def diagResidualOp (j : Json) : R Json := do
+  let ⟨n, B⟩ ← formOf j "B"
+  let W ← matf n n j "W"
+  let Wi ← matf n n j "Winv"
+  let T := DMat.ofMatrix (Wᵀ * B)
+  let G := DMat.ofMatrix (T.toMatrix * W)
+  let I := DMat.ofMatrix (W * Wi - 1)
+  let mut off : ℚ := 0
+  let mut dg : ℚ := 0
+  let mut signs : Array ℚ := #[]
+  for a in List.finRange n do
+    for b in List.finRange n do
+      let g := G.toMatrix a b
+      if a = b then
+        dg := max dg |(|g| - 1)|
+        signs := signs.push (if 0 < g then 1 else -1)
+      else off := max off |g|
+  let mut res := [("offdiag", ofQ off), ("diag", ofQ dg), ("signs", ofQArr signs), ("inv", ofQ (maxAbs I.toMatrix))]
+  match j.getObjVal? "U" with
+  | .ok _ =>
+    let U ← matf n n j "U"
+    let e ← vecf n j "eigs"
+    let T2 := DMat.ofMatrix (Uᵀ * B)
+    let C1 := DMat.ofMatrix (T2.toMatrix * U - Matrix.diagonal e)
+    let C2 := DMat.ofMatrix (Uᵀ * U - 1)
+    res := res ++ [("eigh_diag", ofQ (maxAbs C1.toMatrix)), ("eigh_orth", ofQ (maxAbs C2.toMatrix))]
+  | .error _ => pure ()
+  return Json.mkObj res
+
+/-- `diagonalize_form` executed exactly on an exact `eigh` output (`|eigs|` rational squares) -/
+def diagonalizeOp (j : Json) : R Json := do
+  let a ← qArr (← field j "eigs")
+  let n := a.size
+  let e ← vec n (.arr (a.map ofQ))
+  let U ← matf n n j "U"
+  let mink := (← strf j "mode") == "minkowski"
+  let rev ← boolf j "reverse"
+  for x in a do
+    if !isSq |x| then throw "irrational-root"
+    if x = 0 then throw "DivZero"
+  let o := formOrder e mink rev
+  if h : o.length = n then
+    let σ := orderFn o h
+    let r := diagonalizeForm rsqrt e U σ
+    return Json.mkObj [("W", ofMat r.1), ("Winv", ofMat r.2)]
+  else throw "order length"
+
+/-- `numerical.svd_kernel` selection on the captured `(s, vh)`; returns the selected rows of `vh` -/
+def svdKernelOp (j : Json) : R Json := do
+  let ⟨n, Vh⟩ ← formOf j "vh"
+  let m ← natf j "m"
+  let s ← qArr (← field j "s")
+  let tol ← qf j "tol"
+  return .arr ((svdKernelRows tol m s.toList Vh).toArray.map fun v => ofVec v)
+
+/-- exact kernel residuals: `max |A N|`, `max |NᵀN − 1|` for the returned columns `N` (sent as rows),
+and the SVD contract residuals when `(u, s, vh)` are supplied -/
+def kernelResidualOp (j : Json) : R Json := do
+  let A2 ← qArr2 (← field j "A")
+  let m := A2.size
+  let n ← natf j "n"
+  let A ← mat m n (.arr (A2.map ofQArr))
+  let cols ← rowsD n j "N"
+  let mut ann : ℚ := 0
+  let mut orth : ℚ := 0
+  let vs := cols.toArray
+  for a in [0:vs.size] do
+    let w := DVec.ofFn (A *ᵥ vs[a]!.toFn)
+    for x in w.a do ann := max ann |x|
+    for b in [0:vs.size] do
+      let g := dot vs[a]!.toFn vs[b]!.toFn
+      orth := max orth |g - (if a = b then 1 else 0)|
+  let mut res := [("ann", ofQ ann), ("orth", ofQ orth), ("count", Json.num (vs.size : Int))]
+  match j.getObjVal? "vh" with
+  | .ok _ =>
+    let Vh ← matf n n j "vh"
+    let U ← matf m m j "u"
+    let s ← qArr (← field j "s")
+    let Sg : Matrix (Fin m) (Fin n) ℚ := fun a b => if a.val = b.val then s[a.val]! else 0
+    let T := DMat.ofMatrix (U * Sg)
+    let C1 := DMat.ofMatrix (T.toMatrix * Vh - A)
+    let C2 := DMat.ofMatrix (Vh * Vhᵀ - 1)
+    res := res ++ [("svd_recon", ofQ (maxAbs C1.toMatrix)), ("svd_orth", ofQ (maxAbs C2.toMatrix))]
+  | .error _ => pure ()
+  return Json.mkObj res
+
+/-- `sphere_through(points)`: centre and squared radius exactly (inverse certified) -/
+def sphereOp (j : Json) : R Json := do
+  let P ← qArr2 (← field j "pts")
+  match P.size with
+  | 0 => throw "GeometryError"
+  | d + 1 =>
+    if P.any (fun r => r.size ≠ d) then throw "GeometryError"
+    let pts : Fin (d + 1) → Fin d → ℚ := fun i k => (P[i.val]!)[k.val]!
+    let T := sphereT pts
+    match certInv Tᵀ with
+    | none => throw "Singular"
+    | some Ti =>
+      let c := DVec.ofFn ((1 / 2 : ℚ) • Matrix.vecMul (fun i => nsq (T i)) Ti)
+      let center := DVec.ofFn (c.toFn + pts 0)
+      return Json.mkObj [("center", ofQArr center.a), ("r2", ofQ (nsq c.toFn))]
+
+def pairOf (p : ℚ × ℚ) : Json := ofQArr #[p.1, p.2]
+
+def shortArcOp (j : Json) : R Json := do
+  return pairOf (shortArc (← qf j "pi") (← qf j "a", ← qf j "b"))
+
+/-- `right_to_left`; the cosine is supplied as the two values the implementation computed -/
+def rightToLeftOp (j : Json) : R Json := do
+  let a ← qf j "a"
+  let b ← qf j "b"
+  let ca ← qf j "ca"
+  let cb ← qf j "cb"
+  return pairOf (rightToLeft (fun x => if x = a then ca else cb) (a, b))
+
+def arcIncludeOp (j : Json) : R Json := do
+  return pairOf (arcInclude (← qf j "pi") (← qf j "a", ← qf j "b") (← qf j "ref"))
+
+def ops : List (String × Handler) :=
+  [("c18.gs", gsOp), ("c18.ortho", orthoOp), ("c18.find_isometry", findIsoOp), ("c18.gram", gramOp),
+   ("c18.order", orderOp), ("c18.diag_residual", diagResidualOp), ("c18.diagonalize", diagonalizeOp),
+   ("c18.svd_kernel", svdKernelOp), ("c18.kernel_residual", kernelResidualOp), ("c18.sphere", sphereOp),
+   ("c18.short_arc", shortArcOp), ("c18.right_to_left", rightToLeftOp), ("c18.arc_include", arcIncludeOp)]
 end GT.Driver.C18
